@@ -429,8 +429,9 @@ func c17MakeRun(c *core.C, v *wsView, cmd []string, topMsgs map[string][]string,
 		if r.IntN(4) == 0 {
 			name2 = "./" + strings.Replace(name, "/", "//", 1)
 		}
-		ps[i].Script.Extras = append(ps[i].Script.Extras, c17Extra{Anchor: anchor(), Name: name, Content: "first\n"})
-		ps[j].Script.Extras = append(ps[j].Script.Extras, c17Extra{Anchor: anchor(), Name: name2, Content: "second\n"})
+		// a whole file may carry an insertion_point field that is present but empty
+		ps[i].Script.Extras = append(ps[i].Script.Extras, c17Extra{Anchor: anchor(), Name: name, Content: "first\n", EmptyIP: r.IntN(3) == 0})
+		ps[j].Script.Extras = append(ps[j].Script.Extras, c17Extra{Anchor: anchor(), Name: name2, Content: "second\n", EmptyIP: r.IntN(3) == 0})
 	case "dup-perfile":
 		i, j := pair()
 		ps[j].Out = ps[i].Out
